@@ -36,7 +36,7 @@ fn gen_case() -> impl Strategy<Value = Case> {
         prop::collection::vec((0u8..6, 0u8..3), 0..3),
         any::<bool>(),
         any::<bool>(),
-        prop::collection::vec(0u8..9, 0..6),
+        prop_oneof![4 => prop::collection::vec(0u8..9, 0..6), 1 => prop::collection::vec(0u8..9, 17..40)],
         prop::option::weighted(0.5, (0u8..9, prop::collection::vec(0u8..9, 0..4))),
         any::<bool>(),
     )
@@ -66,6 +66,13 @@ pub fn judge(root: &Path, c: &Case) -> Result<(bool, bool), (String, String)> {
             let m = base + *slot as i128 * 1_000_000_000_000;
             let a = if *mark == 0 { m - 120_000_000_000 } else { m + *mark as i128 - 1 };
             set_times_ns(&p, a, m).unwrap();
+        }
+        if c.dotfiles.len() >= 2 {
+            // an application file whose name is not valid UTF-8 (Latin-1 e-acute)
+            use std::os::unix::ffi::OsStrExt;
+            let p = dir.join(std::ffi::OsStr::from_bytes(b".caf\xe9.idx"));
+            plant_file(&p, b"latin-1 named application data", 0o644);
+            set_times_ns(&p, base - 120_000_000_000, base).unwrap();
         }
         if c.dotdir {
             plant_file(&dir.join(".git").join("HEAD"), b"ref", 0o644);
@@ -221,6 +228,9 @@ pub fn run(ctx: &Ctx) -> Report {
             }
             if c.tempdir.is_some() {
                 rep.label("subdirectory inside .kismet_temp");
+            }
+            if c.temps.len() >= 17 {
+                rep.label("17+ temp files in one .kismet_temp");
             }
             if c.temps.iter().any(|d| *d >= 7) {
                 rep.label("temp file dated in the future (clock skew)");
